@@ -134,3 +134,12 @@ func init() { register("c18jobs", func(args []string) {
 		fmt.Println(i, j.Name, len(j.Data))
 	}
 }) }
+
+func init() { register("c06fields", func(args []string) {
+	cs := c06FieldCasesGet()
+	per := map[string]int{}
+	for _, c := range cs {
+		per[c.Format]++
+	}
+	fmt.Println("field-start cases", len(cs), "formats", len(per), "mp4", per["mp4"], "bplist", per["bplist"], "leveldb_table", per["leveldb_table"])
+}) }
